@@ -1,6 +1,7 @@
 package checks
 
 import (
+	"os"
 	"context"
 	"fmt"
 	"strings"
@@ -333,6 +334,12 @@ func runC10Case(c *mon.Case, k int, vec []int, order, stale int, n uint8) {
 			viol("no-convergence", fmt.Sprintf("no handshake led to a request/response exchange within 15 virtual minutes and 40 client attempts (client conns %d errs %d, server conns %d errs %d)", cliConns.Load(), cliErrs.Load(), srvConns.Load(), srvErrs.Load()))
 		} else if !srvGotReq.Load() {
 			viol("data-flow-mismatch", "client got a response but the server connection that served it did not use the client's N")
+		}
+		c.Shard.Max("max_client_attempts_in_one_case", cliConns.Load()+cliErrs.Load())
+		if cliConns.Load()+cliErrs.Load() >= 8 && getenv("C10_DEBUG") != "" {
+			f, _ := os.OpenFile(getenv("C10_DEBUG"), os.O_CREATE|os.O_APPEND|os.O_WRONLY, 0o644)
+			defer f.Close()
+			fmt.Fprintf(f, "MANY-ATTEMPTS case %d key %s attempts %d conns %d\nC2S %v\nS2C %v\n", c.Idx, key, cliConns.Load()+cliErrs.Load(), cliConns.Load(), wireTail(p.C2S.Log(), 80), wireTail(p.S2C.Log(), 80))
 		}
 		c.Shard.Count("client_attempts", cliConns.Load()+cliErrs.Load())
 		c.Shard.Count("server_attempts", srvConns.Load()+srvErrs.Load())
